@@ -132,7 +132,7 @@ func generate(h *hx.H) {
 		src := src
 		emit(h, func(*rng.R) docCase { return docCase{W: sw, Src: src, Intent: "any", Tag: "exhaustive"} })
 	}
-	nValid, perMutator, nHostile := 1500, 90, 950
+	nValid, perMutator, nHostile := 1300, 90, 800
 	if h.Thorough() {
 		nValid, perMutator, nHostile = 40000, 1500, 30000
 	}
